@@ -17,7 +17,7 @@ func init() {
 			"only on the Type()==HashReference edge; (pack-refs-order) packed-refs is locked before the loose refs are read, the temp file replaces packed-refs before any loose ref is removed, and " +
 			"rewritePackedRefsWithoutRef replaces the file only when the name was found; (loose-shadows-packed) Refs and PackRefs collect loose refs before packed ones into the same `seen` set; " +
 			"(packed-line-shape) processLine rejects lines that do not have exactly two fields; the loose walk marks a name as seen (shadowing the packed value) only behind the success edge of the call that reads the loose file. " +
-			"Not decided: map equivalence over operation histories; peeled (^) lines.",
+			"(packed-lookup-scans-until-found) the single-name lookup in packed-refs stops its scan only where an entry's name equals the name looked up — the file is not sorted when PackRefs wrote it. Not decided: map equivalence over operation histories; peeled (^) lines.",
 		Assumptions: []string{"billy Rename replaces the destination atomically where the platform does"},
 		Run:         runC15,
 	})
